@@ -304,7 +304,9 @@ int splinetable_grideval(struct splinetable* table, const double* const* coords,
 //This exists to give C callers a way to call operator delete, since grideval
 //allocates with operator new which _might_ not be the same as malloc.
 void ndsparse_destroy(struct ndsparse* nd){
-	delete nd;
+	//the object was created by splinetable_grideval as a photospline::ndsparse,
+	//whose destructor also releases the arrays it owns
+	delete static_cast<photospline::ndsparse*>(nd);
 }
 #endif //PHOTOSPLINE_INCLUDES_SPGLAM
 	
